@@ -123,7 +123,14 @@ static enum bs_read_callback_return read_start_line(void *context, uint8_t *buf,
 		return BS_CLOSED;
 	}
 
-	size_t nparsed = http_parser_execute(&connection->parser, &connection->parser_settings, (const char *)buf, len);
+	size_t nparsed = 0;
+	if (likely(memchr(buf, '\n', len - 1) == NULL)) {
+		nparsed = http_parser_execute(&connection->parser, &connection->parser_settings, (const char *)buf, len);
+	}
+	/*
+	 * A start line ended by a bare LF is refused: the parser would go on to the header
+	 * lines behind it, whose callbacks need the handler's object that is created below.
+	 */
 
 	if (unlikely(nparsed != (size_t)len)) {
 		if (connection->status_code == 0) {
